@@ -24,6 +24,10 @@ type RestartScenario struct {
 	Demux DemuxCfg      `json:"demux"`
 	Enum  bool          `json:"enum,omitempty"` // Rewind after every number j of NextData calls, 0..total
 	Steps []RestartStep `json:"steps,omitempty"`
+	// Skipper (stateless kinds only) and Observe: options the Demuxer is created with; a fresh
+	// Demuxer with the same options is the reference.
+	Skipper *SkipSpec `json:"skipper,omitempty"`
+	Observe bool      `json:"observe,omitempty"`
 }
 
 type restart struct{}
@@ -41,7 +45,7 @@ func (restart) Runs(tier string) int64 {
 
 func (restart) Meta() core.EngineMeta {
 	return core.EngineMeta{
-		Rule:        "Reference streams (PAT before PMTs; multi-section PSI units so that parsed sections are buffered at some points; PES units longer than 16 packets; a crafted family in which one PID is mid-unit after exactly 16k packets while another PID returns a datum per packet, the only alignment at which a stale accumulator would continue the counter silently) are read by the real Demuxer on a seekable SimReader with a seeded chunk plan, explicit or auto-detected size. Even run indices Rewind after EVERY number j of NextData calls (0..total; exhaustive per stream); odd indices run seeded scripts of repeated rewinds with NextPacket/NextData/mixed consumption. After the last Rewind the complete sequence must equal a fresh Demuxer's. evaluations = rewind experiments; distinct = (state class at the rewind: mid-unit PIDs, buffered sections, counter alignment; API; size mode); non-trivial = the rewind happened after at least one call.",
+		Rule:        "Reference streams (PAT before PMTs; multi-section PSI units so that parsed sections are buffered at some points; PES units longer than 16 packets; a crafted family in which one PID is mid-unit after exactly 16k packets while another PID returns a datum per packet, the only alignment at which a stale accumulator would continue the counter silently) are read by the real Demuxer on a seekable SimReader with a seeded chunk plan, explicit or auto-detected size, a quarter of them created with a stateless PacketSkipper and some with an observing PacketsParser (the fresh reference Demuxer gets the same options). Even run indices Rewind after EVERY number j of NextData calls (0..total; exhaustive per stream); odd indices run seeded scripts of repeated rewinds with NextPacket/NextData/mixed consumption. After the last Rewind the complete sequence must equal a fresh Demuxer's. evaluations = rewind experiments; distinct = (state class at the rewind: mid-unit PIDs, buffered sections, counter alignment; API; size mode); non-trivial = the rewind happened after at least one call.",
 		Real:        []string{"astits.Demuxer and everything below it"},
 		Stub:        []string{"refts reference multiplexer", "SimReader (seekable, short reads per plan)"},
 		FaultKinds:  []string{"rewind-mid-unit", "rewind-with-buffered-sections", "rewind-cc-aligned", "rewind-repeated", "rewind-after-nextpacket", "rewind-auto-size"},
@@ -108,6 +112,17 @@ func (restart) Generate(r *core.PRNG, tier string, idx int64) any {
 	if r.Chance(1, 3) {
 		sc.Demux.PacketSize = 0
 	}
+	if r.Chance(1, 4) {
+		k := &SkipSpec{Kind: []string{"pid", "cc", "pusi", "has-af", "none"}[r.Intn(5)], CC: uint8(r.Intn(16))}
+		if k.Kind == "pid" {
+			k.PIDs = []uint16{sc.Model.Streams[r.Intn(len(sc.Model.Streams))].PID}
+			if k.PIDs[0] == 0 {
+				k.Kind = "cc" // keeping the PAT keeps the scenario in scope (PAT precedes PMTs)
+			}
+		}
+		sc.Skipper = k
+	}
+	sc.Observe = r.Chance(1, 6)
 	if idx%2 == 0 {
 		sc.Enum = true
 		return sc
@@ -140,7 +155,33 @@ func (restart) Execute(scAny any, keepLog bool) *core.Outcome {
 	data := refts.Join(b.Packets)
 	cfg := sc.Demux
 	cfg.Reader.Kind = "seekable"
-	fresh, _ := DemuxData(data, cfg, nil, npk*4+16)
+	var nGroups int
+	opts := func() []func(*astits.Demuxer) {
+		var o []func(*astits.Demuxer)
+		if k := sc.Skipper; k != nil && k.Kind != "seq" && k.Kind != "nth" {
+			o = append(o, astits.DemuxerOptPacketSkipper(func(p *astits.Packet) bool {
+				if p.Header.PID == 0 {
+					return false // scope: the PAT precedes the PMTs, also in the filtered stream
+				}
+				rai, pcr := false, false
+				if p.AdaptationField != nil {
+					rai, pcr = p.AdaptationField.RandomAccessIndicator, p.AdaptationField.HasPCR
+				}
+				return k.decide(p.Header.PID, p.Header.ContinuityCounter, p.Header.PayloadUnitStartIndicator, p.Header.HasAdaptationField, rai, pcr, 0)
+			}))
+		}
+		if sc.Observe {
+			o = append(o, astits.DemuxerOptPacketsParser(func(ps []*astits.Packet) ([]*astits.DemuxerData, bool, error) {
+				nGroups++
+				return nil, false, nil
+			}))
+		}
+		return o
+	}
+	if sc.Skipper != nil {
+		out.Fire("rewind-with-skipper")
+	}
+	fresh, _ := DemuxData(data, cfg, nil, npk*4+16, opts()...)
 	var want []string
 	for _, r := range fresh {
 		want = append(want, resKey(r.D, r.Err))
@@ -209,7 +250,7 @@ func (restart) Execute(scAny any, keepLog bool) *core.Outcome {
 		out.Evals++
 		pre := len(out.Violations)
 		r, sr := world.NewReader(data, cfg.Reader, out.Log)
-		dmx := astits.NewDemuxer(context.Background(), r, demuxOpts(cfg)...)
+		dmx := astits.NewDemuxer(context.Background(), r, demuxOpts(cfg, opts()...)...)
 		fp := ""
 		for si, s := range steps {
 			nd := 0
@@ -267,7 +308,7 @@ func (restart) Execute(scAny any, keepLog bool) *core.Outcome {
 			out.Violate("C20", cls, sig, "after Rewind (steps %v, size option %d) the delivered sequence differs from a fresh Demuxer's: %s", steps, cfg.PacketSize, msg)
 		}
 		if len(out.Violations) > pre {
-			out.Narrow(pre, &RestartScenario{Model: sc.Model, Demux: sc.Demux, Steps: steps})
+			out.Narrow(pre, &RestartScenario{Model: sc.Model, Demux: sc.Demux, Steps: steps, Skipper: sc.Skipper, Observe: sc.Observe})
 		}
 		if len(steps) > 0 && steps[0].N > 0 {
 			out.FP(fmt.Sprintf("%s/%d/%d", fp, cfg.PacketSize, len(steps)))
